@@ -1,6 +1,7 @@
 import CandidModel.Proofs.SubSound
 import CandidModel.Proofs.SubComplete
 import CandidModel.Proofs.SubTrans
+import CandidModel.Proofs.EqSub
 /-
   C05 — Subtype and upgrade checks decide the spec relation, independent of order and history.
   Structural facts about the specification relation, and soundness of the checking algorithm (memo table,
@@ -182,5 +183,52 @@ example :
     Wire.goodTy [] a = true ∧ Wire.goodTy [] c = true ∧ De.allTy Wire.fo1 a = true ∧ De.allTy Wire.fo1 c = true ∧
       De.allTy (Wire.nn1 []) c = true := by
   refine ⟨by decide, by decide, by decide, by decide, by decide⟩
+
+/-! ### type equality -/
+
+/-- **The `equal` check is sound for type equality, whatever was checked before**: `TyEq` is the greatest relation
+closed under the congruence rules with names unfolded on either side (`CandidModel/TypeEq.lean`); a successful run of
+the algorithm (`equal_impl`, mirrored by `eqAlg`), started from a memo every pair of which is justified, establishes
+it and leaves such a memo. -/
+theorem equal_check_is_sound_after_history (env : Env) (n : Nat) (g g' : Gamma) (a b : Ty) (hj : EJustified env g)
+    (h : eqAlg env n g a b = .yes g') : TyEq env a b ∧ EJustified env g' :=
+  eqAlg_sound_history env n g g' a b hj h
+
+/-- type equality is reflexive and symmetric -/
+theorem type_equality_is_reflexive_and_symmetric (env : Env) :
+    (∀ a, TyEq env a a) ∧ (∀ a b, TyEq env a b → TyEq env b a) :=
+  ⟨tyeq_refl env, fun _ _ h => Wire.tyeq_symm h⟩
+
+/-- **Equal types are subtypes of each other**: over an environment whose definitions resolve and have distinct
+field ids (`GoodEnv`), for such types without function or service references within reach (`FOT`), type equality
+gives subtyping in both directions.  (By coinduction: each equality rule is matched by the subtyping rule of the same
+shape, a name is unfolded on whichever side it stands; distinct ids make "the field at the same position" and "the
+field with the same id" the same field.) -/
+theorem equal_types_are_subtypes_both_ways (env : Env) (hg : Wire.GoodEnv env) (a b : Ty)
+    (hga : Wire.goodTy env a = true) (hgb : Wire.goodTy env b = true) (hfa : Wire.FOT env a) (hfb : Wire.FOT env b)
+    (h : TyEq env a b) : Sub env a b ∧ Sub env b a :=
+  Wire.tyeq_sub env hg a b hga hgb hfa hfb h
+
+/-- **… and so a successful `equal` check implies subtyping both ways** (same scope: first-order types; reference
+types are left to the differential check, op `sub.equal`). -/
+theorem equal_check_implies_subtyping_both_ways (env : Env) (hg : Wire.GoodEnv env) (n : Nat) (g' : Gamma) (a b : Ty)
+    (hga : Wire.goodTy env a = true) (hgb : Wire.goodTy env b = true) (hfa : Wire.FOT env a) (hfb : Wire.FOT env b)
+    (h : eqAlg env n [] a b = .yes g') : Sub env a b ∧ Sub env b a :=
+  Wire.equal_sub_both env hg n g' a b hga hgb hfa hfb h
+
+namespace EqEx
+/-- `type A = record { x : opt A }; type B = record { x : opt B }` -/
+def env : Env := [("A", .record (.cons (.named "x") (.opt (.var "A")) .nil)),
+                  ("B", .record (.cons (.named "x") (.opt (.var "B")) .nil))]
+def accepted : Res → Bool | .yes _ => true | _ => false
+end EqEx
+
+/-- non-vacuity: two recursive definitions that differ only in their names are accepted by the `equal` check and
+meet the decidable sufficient conditions of the hypotheses -/
+example :
+    EqEx.accepted (eqAlg EqEx.env 10 [] (.var "A") (.var "B")) = true ∧
+    Wire.goodTy EqEx.env (.var "A") = true ∧ Wire.goodTy EqEx.env (.var "B") = true ∧
+    De.allEnv Wire.fo1 EqEx.env = true ∧ De.allEnv (fun t => Wire.goodTy EqEx.env t) EqEx.env = true := by
+  refine ⟨by decide +kernel, by decide +kernel, by decide +kernel, by decide +kernel, by decide +kernel⟩
 
 end Candid.Props.C05
